@@ -1317,6 +1317,18 @@ def method_call(ev, state, node, name):
             other = coerce(other, recv.ty)
             return ev.set_binop(state, {'union': 'union', 'intersection': 'inter',
                                         'difference': 'diff'}[name], recv, other)
+        if name in ('update', 'intersection_update', 'difference_update') and len(node.args) == 1:
+            # in-place forms of union / intersection / difference
+            other = ev.eval(state, node.args[0])
+            if other.ty[0] != 'set':
+                other = to_set_value(ev, state, other, node)
+            if recv.meta == ('empty',):
+                recv = coerce(recv, other.ty)
+            other = coerce(other, recv.ty)
+            new = ev.set_binop(state, {'update': 'union', 'intersection_update': 'inter',
+                                       'difference_update': 'diff'}[name], recv, other)
+            write_ref(state, need_ref(), new)
+            return NONEVAL
         if name == 'pop' and not node.args:
             # removes and returns an arbitrary member; KeyError on the empty set
             ctx.oblige(state, set_card(recv) > 0, 'KeyError', node, 'pop from a non-empty set')
